@@ -38,7 +38,7 @@ CLAIMED = {
    "Trust: refcodec/wkt.go (printer + lexer) and strconv's shortest formatting. Non-ASCII whitespace and case-insensitivity of Z/M/EMPTY are not claimed by the property and not explored.",
    "bounded-exhaustive enumeration of shapes x token-level re-spellings (deviation-bounded) on the real code against an independent reference printer", "4/C05"),
  "C06": ("model_checking",
-   "Valid geometries: every structural shape S(d,w) x 4 coordinate types x finite float classes (polygons as cell squares under 8 float frames): MarshalJSON output is parsed by encoding/json, walked against the RFC 7946 schema, its numbers compared bit for bit with the XY(Z) ordinates, and the decode compared with a loss model (M dropped, empty Points omitted from MultiPoints, Z dropped only without positions); decoding into each of the 7 concrete types succeeds iff the type matches. Documents: every assignment of position lengths 0..5 to the positions of 6 type templates, member order, collection siblings deciding the document-wide dimension, 10 structural deviations, nulls. Features: ids x properties x foreign members x geometries and FeatureCollections of 0..2, malformed variants rejected.",
+   "Valid geometries: every structural shape S(d,w) x 4 coordinate types x finite float classes (polygons as cell squares under 8 float frames): MarshalJSON output is parsed by encoding/json, walked against the RFC 7946 schema, its numbers compared bit for bit with the XY(Z) ordinates, and the decode compared with a loss model (M dropped, empty Points omitted from MultiPoints, Z dropped only without positions); decoding into each of the 7 concrete types succeeds iff the type matches. Documents: every assignment of position lengths 0..5 to the positions of 6 type templates, member order, collection siblings deciding the document-wide dimension, 10 structural deviations, nulls. Features: ids x properties x foreign members x geometries and FeatureCollections of 0..2, malformed variants rejected. Every document of the grammar is also decoded through Geometry.UnmarshalJSON and through each concrete type's UnmarshalJSON (same verdict and value for the matching type, refusal otherwise), including well-formed documents whose geometry is invalid; feature members take every JSON value class.",
    "Trust: encoding/json, refcodec/node.go, the loss model geojsonExpect in checks/c06.go. Foreign members named like reserved members (type, geometry, id, properties) are not foreign members and are excluded; non-finite ordinates are outside JSON.",
    "bounded-exhaustive enumeration of shapes and of grammar-derived documents on the real code against a reference loss model", "4/C06"),
  "C07": ("model_checking",
@@ -62,11 +62,11 @@ CLAIMED = {
    "Trust: exact/ Locate and arrangement. Boundary keeping Z/M is not claimed by the property and not checked (the library documents Force2D there).",
    "bounded-exhaustive input enumeration on the real code against the exact interior/boundary model", "4/C15"),
  "C16": ("model_checking",
-   "Every structural shape S(d,w) x 4 coordinate types (valid cell-lattice instantiation with every vertex tagged Z=1000+i, M=2000+i so a misplaced payload is visible) and every collection built from 1..3 members constructed with every assignment of the 4 coordinate types: a structural walker asserts one coordinate type on the root and on every member / ring / point / sequence reachable through every accessor; constructors yield the common subset; ForceCoordinatesType x4 and Force2D are compared with a reference (dropped gone, added zero, XY bit-identical, also on empties); Reverse, ForceCW/CCW, SnapToGrid, TransformXY, Densify, Dump, DumpCoordinates, DumpRings, Coordinates, AsMulti*, WKB/WKT keep the type and carry each vertex's Z/M with its XY; Centroid, ConvexHull, PointOnSurface, Envelope, rotated rectangle and the set operations return XY.",
+   "Every structural shape S(d,w) x 4 coordinate types (valid cell-lattice instantiation with every vertex tagged Z=1000+i, M=2000+i so a misplaced payload is visible) and every collection built from 1..3 members constructed with every assignment of the 4 coordinate types: a structural walker asserts one coordinate type on the root and on every member / ring / point / sequence reachable through every accessor; constructors yield the common subset; ForceCoordinatesType x4 and Force2D are compared with a reference (dropped gone, added zero, XY bit-identical, also on empties); Reverse, ForceCW/CCW, SnapToGrid, TransformXY, Densify, Dump, DumpCoordinates, DumpRings, Coordinates, AsMulti*, WKB/WKT keep the type and carry each vertex's Z/M with its XY; Centroid, ConvexHull, PointOnSurface, Envelope, rotated rectangle and the set operations return XY. ForceCoordinatesType applied twice for every pair of target types (a dropped dimension comes back as zeros).",
    "Trust: refcodec/node.go walker and forceNode in checks/c16.go. The operation list is explicit (the one in the property), not discovered by reflection.",
    "bounded-exhaustive enumeration of shapes x coordinate types x operations on the real code against a structural reference", "4/C16"),
  "C17": ("model_checking",
-   "Valid lineal and areal lattice geometries (every vertex sequence of length <=4 on 3x3 with >=2 distinct points incl. repeated consecutive vertices, closed rings, simple polygons, polygons with holes and mixed ring windings, multis and collections, Z/M tagged and float-image variants) x parameters enumerated from the property: Densify distances relative to the diameter; Simplify thresholds 0, every vertex-to-chord distance and its two ulp neighbours, the diameter; InterpolatePoint fractions -1, 0, 1, 2, +-Inf, k/8 and every cumulative-length breakpoint +-1 ulp; InterpolateEvenlySpacedPoints counts -1..50; SnapToGrid places -320..320 x 14 ordinates x sign; Reverse, ForceCW, ForceCCW. Each contract clause is checked with exact rationals / 200-bit floats (originals kept in order with payload, inserted points on segments, gaps, dropped vertices within t of the bracketing line, valid-or-error, finite interpolation at the exact arc position, oddness, half-step bound, finiteness and idempotence of snapping, involution, point-set and validity preservation, IsCW/IsCCW and idempotence). Simplify: an input line or ring absent from the result must be able to collapse at the threshold (polygons with 2..4 holes of four sizes in every order x 10 thresholds between the sizes); ForceCW/ForceCCW: exact signed area of every ring of the result, also on two exact float images whose features are 1e-8 of their distance from the origin.",
+   "Valid lineal and areal lattice geometries (every vertex sequence of length <=4 on 3x3 with >=2 distinct points incl. repeated consecutive vertices, closed rings, simple polygons, polygons with holes and mixed ring windings, multis and collections, Z/M tagged and float-image variants) x parameters enumerated from the property: Densify distances relative to the diameter; Simplify thresholds 0, every vertex-to-chord distance and its two ulp neighbours, the diameter; InterpolatePoint fractions -1, 0, 1, 2, +-Inf, k/8 and every cumulative-length breakpoint +-1 ulp; InterpolateEvenlySpacedPoints counts -1..50; SnapToGrid places -320..320 x 14 ordinates x sign; Reverse, ForceCW, ForceCCW. Each contract clause is checked with exact rationals / 200-bit floats (originals kept in order with payload, inserted points on segments, gaps, dropped vertices within t of the bracketing line, valid-or-error, finite interpolation at the exact arc position, oddness, half-step bound, finiteness and idempotence of snapping, involution, point-set and validity preservation, IsCW/IsCCW and idempotence). Simplify: an input line or ring absent from the result must be able to collapse at the threshold (polygons with 2..4 holes of four sizes in every order x 10 thresholds between the sizes); ForceCW/ForceCCW: exact signed area of every ring of the result, also on two exact float images whose features are 1e-8 of their distance from the origin. Densify on polygons whose rings are sampled at different steps (fine shell around coarse holes and the reverse) x 11 distances.",
    "Trust: exact/ and math/big. Tolerances: 1e-11 x magnitude for interpolated positions, 64 ulp of the magnitude for densify gaps.",
    "bounded-exhaustive enumeration of inputs x parameters on the real code against exact-arithmetic contract oracles", "4/C17"),
  "C18": ("model_checking",
@@ -78,11 +78,11 @@ CLAIMED = {
    "The continuum of configurations and points is covered on lattices only; nothing is claimed between nodes. Jacobians by central differences with h = 1e-4 degrees, tolerance 1e-6 relative.",
    "exhaustive enumeration of a configuration x graticule lattice on the real code against closed-form characterisations", "4/C19"),
  "C20": ("model_checking",
-   "Argument pools of empties (zero value of Geometry and of each concrete type, typed empties in 4 coordinate types, Multi* and collections of 1..3 empties of mixed types, nested empty collections) are fed to every exported method of the 8 geometry types, Envelope and Sequence (found by reflection; every argument tuple from small pools for int, float, coordinates type, bool, XY, envelope, transform and geometry parameters) and to a table of 23 free functions over all ordered pairs with at least one empty operand: no panic outside an explicit allow-list of documented ones, neutral answers (IsEmpty, zero measures, empty centroid/hull/envelope, undefined distance, Relate closed forms from the exact oracle, Union/Difference/SymmetricDifference = UnaryUnion of the other operand), encodings re-decodable, and the zero Geometry compared call by call with GeometryCollection{}.AsGeometry(). Transparency: 20 non-empty geometries of every type x an empty member of 10 kinds inserted at every position (and same-typed Multi* variants) x 5-8 other operands: measures, envelope, hull, validity, DE-9IM both ways, 10 predicates both ways, distance and the point set of 7 set operations (against the exact arrangement) must not change.",
+   "Argument pools of empties (zero value of Geometry and of each concrete type, typed empties in 4 coordinate types, Multi* and collections of 1..3 empties of mixed types, nested empty collections) are fed to every exported method of the 8 geometry types, Envelope and Sequence (found by reflection; every argument tuple from small pools for int, float, coordinates type, bool, XY, envelope, transform and geometry parameters) and to a table of 23 free functions over all ordered pairs with at least one empty operand: no panic outside an explicit allow-list of documented ones, neutral answers (IsEmpty, zero measures, empty centroid/hull/envelope, undefined distance, Relate closed forms from the exact oracle, Union/Difference/SymmetricDifference = UnaryUnion of the other operand), encodings re-decodable, and the zero Geometry compared call by call with GeometryCollection{}.AsGeometry(). Transparency: 20 non-empty geometries of every type x an empty member of 10 kinds inserted at every position (and same-typed Multi* variants) x 5-8 other operands: measures, envelope, hull, validity, DE-9IM both ways, 10 predicates both ways, distance and the point set of 7 set operations (against the exact arrangement) must not change. Transparency also observes PointOnSurface (empty iff the geometry is, and on it) and that every unary operation of the read API is total on every variant.",
    "Variadic option parameters are exercised with no options here (each option has its own property). Pointer-receiver decoders (Scan, UnmarshalJSON) are C08's subject.",
    "bounded-exhaustive enumeration of callees x argument tuples on the real code, differential (with / without empty member, zero value vs empty collection) and against neutral-answer tables", "4/C20"),
  "C10": ("model_checking",
-   "Three exhaustive sub-checks over one op table (32 unary ops x 27 operands covering every degeneracy class, 17 binary ops x all ordered pairs, 4 search ops x 6 bulk-loaded trees). (1) Purity: operands, intermediate results of every depth-2 chain, collections built from results, and geometries sharing one backing array through NewSequence / Sequence.Slice are re-observed (WKB + accessor walk) after every call; every call is made twice and must return identical output. (2) Determinism under every map iteration order: a source-to-source pass (go/ast + go/types, applied with go build -overlay, /repo untouched) turns every range over a map in geom (22 sites) into a choice point and every map insertion (43 sites) into an insertion-order note; a deviation-bounded DFS explorer (default order, then every rotation / reversal / adjacent transposition at every choice point: bound 1 quick, bound 2 thorough, plus 4 global policies) re-runs the overlay-backed operations and requires the output (WKB / matrix / error) to equal the default run's; replaying the default schedule twice and every replayed prefix must meet identical choice points (uncaptured nondeterminism is a hard error). (3) Schedules: a static pass re-establishes on the current tree that geom, rtree and carto contain no go statement, channel operation, sync / atomic import or package-variable write outside init, so goroutines have no synchronisation edges and all interleavings are equivalent to the sequential runs; the same op bodies then run free under the race detector with 2, 4 and 16 goroutines on shared operands and trees. Construction and decoding are operations too: the same items bulk-loaded again (18 layout families x 10 sizes x 3 repetitions with other loads in between) give the same complete visit sequences; every operand's WKB (little, big, mixed endian; UnmarshalWKB and Scan), TWKB and GeoJSON buffer decoded twice gives the same value and leaves the buffer as it was; every unary operation agrees on an operand and on its decoded copy.",
+   "Three exhaustive sub-checks over one op table (32 unary ops x 27 operands covering every degeneracy class, 17 binary ops x all ordered pairs, 4 search ops x 6 bulk-loaded trees). (1) Purity: operands, intermediate results of every depth-2 chain, collections built from results, and geometries sharing one backing array through NewSequence / Sequence.Slice are re-observed (WKB + accessor walk) after every call; every call is made twice and must return identical output. (2) Determinism under every map iteration order: a source-to-source pass (go/ast + go/types, applied with go build -overlay, /repo untouched) turns every range over a map in geom (22 sites) into a choice point and every map insertion (43 sites) into an insertion-order note; a deviation-bounded DFS explorer (default order, then every rotation / reversal / adjacent transposition at every choice point: bound 1 quick, bound 2 thorough, plus 4 global policies) re-runs the overlay-backed operations and requires the output (WKB / matrix / error) to equal the default run's; replaying the default schedule twice and every replayed prefix must meet identical choice points (uncaptured nondeterminism is a hard error). (3) Schedules: a static pass re-establishes on the current tree that geom, rtree and carto contain no go statement, channel operation, sync / atomic import or package-variable write outside init, so goroutines have no synchronisation edges and all interleavings are equivalent to the sequential runs; the same op bodies then run free under the race detector with 2, 4 and 16 goroutines on shared operands and trees. Construction and decoding are operations too: the same items bulk-loaded again (18 layout families x 10 sizes x 3 repetitions with other loads in between) give the same complete visit sequences; every operand's WKB (little, big, mixed endian; UnmarshalWKB and Scan), TWKB and GeoJSON buffer decoded twice gives the same value and leaves the buffer as it was; every unary operation agrees on an operand and on its decoded copy. Constructors from member slices keep a private copy (caller's slice overwritten afterwards).",
    "A controlled thread scheduler would have zero scheduling points here (no synchronisation in the code); race-freedom therefore rests on the static pass + purity enumeration + one free-running -race execution per width (trusted base: Go race detector). Another process differs only in hash seed, i.e. map order, which (2) covers. The explorer menu is rotations / reversal / adjacent transpositions, not all n! orders.",
    "stateless exploration of environment choices (map iteration order) on the real code with a deviation-bounded DFS, plus exhaustive purity enumeration and a static no-synchronisation argument for schedules", "4/C10"),
 }
